@@ -53,17 +53,20 @@ theorem isNameChar_safeChar {c : Char} (h : isIdChar c = true) : isNameChar (saf
     · subst h2; decide
     · by_cases h3 : c = '>'
       · subst h3; decide
-      · simp only [h1, h2, h3, if_false]
-        simp only [isIdChar, Bool.or_eq_true, beq_iff_eq] at h
-        simp only [isNameChar, Bool.or_eq_true, beq_iff_eq]
-        rcases h with (((((h | h) | h) | h) | h) | h) | h
-        · exact Or.inl (Or.inl (Or.inl h))
-        · exact Or.inl (Or.inr h)
-        · exact Or.inr h
-        · exact absurd h h1
-        · exact absurd h h2
-        · exact absurd h h3
-        · exact Or.inl (Or.inl (Or.inr h))
+      · by_cases h4 : c = ':'
+        · subst h4; decide
+        · simp only [h1, h2, h3, h4, if_false]
+          simp only [isIdChar, Bool.or_eq_true, beq_iff_eq] at h
+          simp only [isNameChar, Bool.or_eq_true, beq_iff_eq]
+          rcases h with ((((((h | h) | h) | h) | h) | h) | h) | h
+          · exact Or.inl (Or.inl (Or.inl h))
+          · exact Or.inl (Or.inr h)
+          · exact Or.inr h
+          · exact absurd h h1
+          · exact absurd h h2
+          · exact absurd h h3
+          · exact Or.inl (Or.inl (Or.inr h))
+          · exact absurd h h4
 
 theorem all_safeKey {k : Str} (h : k.all isIdChar = true) : (safeKey k).all isNameChar = true := by
   rw [List.all_eq_true] at *
